@@ -344,10 +344,14 @@ def make_rep(rng, n, names, kind, cls=None, order=None, **kwargs):
         if Mi is not None:
             invs[g] = Mi
     rep = cls(**kwargs)
-    for g in (order or names):
-        rep[g] = gens[g].copy()
-    tag(rep, "base", kind)
     tab = rw.table(gens, invs or None)
+    for g in (order or names):
+        if rw.is_lower(g):
+            rep[g] = gens[g].copy()
+        else:
+            # assigned through the inverse name: rep['A'] = M_a^-1
+            rep[g] = np.array(tab[g], copy=True)
+    tag(rep, "base", kind)
     return rep, tab
 
 
@@ -496,7 +500,8 @@ def wl_random(run, rng, idx):
 # W: generator names
 
 NAME_POOLS = [["s1", "s2", "s3"], ["word1", "word2"], ["x", "yy", "zzz"],
-              ["g_1", "g_2", "g_11"], ["ab", "a", "b"], ["t"], ["1a", "2a"]]
+              ["g_1", "g_2", "g_11"], ["ab", "a", "b"], ["t"], ["1a", "2a"], ["a", "aa"],
+              ["s", "t", "st"]]
 
 
 def wl_names(run, rng, idx):
@@ -609,6 +614,19 @@ def wl_names(run, rng, idx):
             tail = rw.random_word(rng, letters, int(rng.integers(1, 4)))
             batch.append(tuple(stem) + tuple(tail))
         batch.append(tuple(stem))
+        # different words whose names concatenate to the same string ('a','b' vs
+        # 'ab'; 'a','aa' vs 'aa','a'), side by side in one call (seeded change
+        # C05-r3-1: per-call memo keyed by "".join(word))
+        groups = {}
+        for L in (1, 2, 3):
+            for t in itertools.product(letters, repeat=L):
+                groups.setdefault("".join(t), []).append(t)
+        clash = [g for g in groups.values() if len(g) >= 2]
+        if clash:
+            g = clash[int(rng.integers(len(clash)))]
+            pick = [g[int(i)] for i in rng.permutation(len(g))[:3]]
+            pre = tuple(rw.random_word(rng, letters, int(rng.integers(0, 2))))
+            batch.extend(pre + tuple(t) for t in pick)
         case = {"names": names, "mode": mode, "route": "elements-batch",
                 "words": [list(t) for t in batch], "kind": kind, "n": n,
                 "generators": {g: gens[g] for g in names}}
@@ -951,9 +969,17 @@ def wl_derived(run, rng, idx):
     # tensor product with a second representation of the same free group
     n2 = 1 + int(rng.integers(0, 3))
     kind2 = ("real", "int", "complex")[int(rng.integers(0, 3))]
-    rep2, tab2 = make_rep(rng, n2, names, kind2)
+    # the second factor's generators are assigned in another order or through
+    # their inverse names every other case: the factors are paired by generator
+    # NAME, not by position in their dictionaries (seeded change C05-r3-2)
+    order2 = (None, list(names)[::-1], [g.upper() for g in names],
+              [g.upper() for g in names][::-1])[idx % 4]
+    if order2 is not None and kind2 == "int" and any(not rw.is_lower(g) for g in order2):
+        order2 = list(names)[::-1]
+    rep2, tab2 = make_rep(rng, n2, names, kind2, order=order2)
     # (the tensor product needs both tables: done by hand)
-    case = dict(base, derived="tensor_product", generators2={g: tab2[g] for g in names})
+    case = dict(base, derived="tensor_product", generators2={g: tab2[g] for g in names},
+                assignment_order_of_second_factor=order2 or list(names))
     run.current_case = case
     try:
         T = rep.tensor_product(rep2)
